@@ -1193,16 +1193,6 @@ func (fc *FnCtx) applyUsesScope(st *State, where string, extra map[string]Value)
 			st.ghost["let:"+l.Text] = sc.eval(l.Expr)
 		}
 	}
-	for _, a := range fc.c.Asserts {
-		if a.Where == where && fc.e.applies(&Clause{Props: a.Props}) {
-			fc.firedWhere[a.Where] = true
-			sc := fc.specCtx(st, extra)
-			sc.pol = 1
-			t := sc.evalBool(a.Expr)
-			fc.oblige(st, "assert", t, token.NoPos, a.Text+" @"+where)
-			st.Assume(t)
-		}
-	}
 	for _, a := range fc.c.Assumes {
 		if a.Where == where && fc.e.applies(&Clause{Props: a.Props}) {
 			sc := fc.specCtx(st, extra)
@@ -1214,6 +1204,16 @@ func (fc *FnCtx) applyUsesScope(st *State, where string, extra map[string]Value)
 	for _, u := range fc.c.Uses {
 		if u.Where == where && fc.e.applies(&Clause{Props: u.Props}) {
 			fc.useLemma(st, u, extra)
+		}
+	}
+	for _, a := range fc.c.Asserts {
+		if a.Where == where && fc.e.applies(&Clause{Props: a.Props}) {
+			fc.firedWhere[a.Where] = true
+			sc := fc.specCtx(st, extra)
+			sc.pol = 1
+			t := sc.evalBool(a.Expr)
+			fc.oblige(st, "assert", t, token.NoPos, a.Text+" @"+where)
+			st.Assume(t)
 		}
 	}
 }
